@@ -220,7 +220,15 @@ impl Ldap {
         } else {
             rx.await
         }?;
-        let (ldap_ext, controls) = (LdapResultExt::from(response.0), response.1);
+        // The server decides what arrives under this ID; anything that isn't an LDAPResult
+        // is a decoding error for the caller, not a panic in the caller's task.
+        let ldap_ext = LdapResultExt::try_from_tag(response.0).ok_or_else(|| {
+            LdapError::from(std::io::Error::new(
+                std::io::ErrorKind::InvalidData,
+                "response is not an LDAPResult",
+            ))
+        })?;
+        let controls = response.1;
         let (mut result, exop, sasl_creds) = (ldap_ext.0, ldap_ext.1, ldap_ext.2);
         result.ctrls = controls;
         Ok((result, exop, sasl_creds))
